@@ -135,3 +135,92 @@ def run_c(prog, res):
                             "not in the lambda's set-variable list: a variable that is later assigned would be replaced by its "
                             "initial constant", unit="simplify.c"))
     return stat
+
+
+# ------------------------------------------------------------------ C09.d
+# The optimiser rewrites the AST; it does not compute with the program's values itself and it keeps
+# quoted data wrapped.  Taint: (1) the value unwrapped from a Lit node, (2) the result of the
+# unchecked fixnum arithmetic macros (which wrap around where the VM promotes to a bignum).  Sinks:
+# stores into AST node fields and the rewritten AST the function returns.
+
+AST_MEMBERS = ("cnd", "lambda", "set", "seq", "ref", "synclo")
+FX_MACROS = ("sexp_fx_add", "sexp_fx_sub", "sexp_fx_mul", "sexp_fx_div", "sexp_fx_rem", "sexp_fx_neg", "sexp_fx_abs",
+             "sexp_fx_sign")
+
+
+def run_d(prog, res, floor=6):
+    stat = res.stat("C09.d", "in the simplifier no value unwrapped from a literal node and no result of unchecked fixnum "
+                    "arithmetic reaches an AST slot or the rewritten AST that is returned (folding goes through the VM)",
+                    floor=floor)
+    u = prog.unit("simplify.c")
+    if u is None:
+        raise AnalysisBroken("anchor vanished: simplify.c")
+    for fn in u.functions.values():
+        if not fn.blocks or fn.ret_type != tables.SEXP_T:
+            continue
+
+        def source(n):
+            """why expression n carries a raw value, or None"""
+            n = fn.strip(n)
+            nd = fn.nodes[n]
+            k = nd["k"]
+            ms = fn.macros(n) or ()
+            if k == "bin" and any(m in FX_MACROS for m in ms) and nd["o"] in ("+", "-", "*", "/", "|", "&", "<<", ">>"):
+                return "the result of %s" % [m for m in ms if m in FX_MACROS][0]
+            if k == "mem":
+                _o, path = fn.mempath(n)
+                if path == ["value", "lit", "value"]:
+                    return "the value unwrapped from a literal node"
+                return None
+            if k == "cond":
+                return source(nd["c"][1]) or source(nd["c"][2])
+            if k == "bin" and nd["o"] == "=":
+                return source(nd["c"][1])
+            if k == "bin" and nd["o"] == ",":
+                return source(nd["c"][1])
+            if k == "ref" and nd.get("d") in tainted:
+                return tainted[nd["d"]]
+            return None
+        tainted = {}
+        changed = True
+        while changed:
+            changed = False
+            for vid in range(len(fn.vars)):
+                if vid in tainted or vid in fn.params:
+                    continue
+                for (_d, rhs) in local_defs(fn, vid):
+                    if rhs is not None:
+                        why = source(rhs)
+                        if why:
+                            tainted[vid] = why + " (through `%s`)" % fn.vars[vid]["n"]
+                            changed = True
+                            break
+        for i, nd in enumerate(fn.nodes):
+            if nd["k"] == "bin" and nd["o"] == "=":
+                l = fn.strip(nd["c"][0])
+                if fn.nodes[l]["k"] != "mem":
+                    continue
+                _o, path = fn.mempath(l)
+                if len(path) == 3 and path[0] == "value" and path[1] in AST_MEMBERS:
+                    stat.sites += 1
+                    stat.obligations += 1
+                    why = source(nd["c"][1])
+                    if why:
+                        res.add(Finding("C09", "C09.d.raw-value-in-ast", fn.name, "%s.%s" % (path[1], path[2]), fn.where(i),
+                                        "%s stores %s into the %s.%s slot of an AST node: the code generator reads a raw pair "
+                                        "there as an application and a wrapped-around fixnum as the constant" %
+                                        (fn.name, why, path[1], path[2]), unit="simplify.c"))
+                    else:
+                        stat.discharged += 1
+            elif nd["k"] == "ret" and nd.get("c"):
+                stat.sites += 1
+                stat.obligations += 1
+                why = source(nd["c"][0])
+                if why:
+                    res.add(Finding("C09", "C09.d.raw-value-in-ast", fn.name, "returned AST", fn.where(i),
+                                    "%s returns %s as the rewritten AST: the optimised program computes with a value the VM "
+                                    "would not have produced (no overflow to bignum, no literal wrapper)" % (fn.name, why),
+                                    unit="simplify.c"))
+                else:
+                    stat.discharged += 1
+    return stat
